@@ -141,6 +141,12 @@ func normErr(s string) string {
 	if i := strings.Index(s, " at <eval>"); i >= 0 {
 		return s[:i]
 	}
+	// thrown inside a named function (a getter): "<text> at <name> (<eval>:L:C(n))"
+	if i := strings.Index(s, " (<eval>"); i >= 0 {
+		if j := strings.LastIndex(s[:i], " at "); j >= 0 {
+			return s[:j]
+		}
+	}
 	return s
 }
 
